@@ -113,7 +113,9 @@ func (b *builder) build(s []Comparable, effort int) *Node {
 		}
 		return &Node{Point: s[0]}
 	}
-	n := Node{Point: b.selectVantage(s, effort)}
+	vi := b.selectVantage(s, effort)
+	s[0], s[vi] = s[vi], s[0]
+	n := Node{Point: s[0]}
 	radius, closer, further := b.partition(n.Point, s)
 	n.Radius = radius
 	n.Closer = b.build(closer, effort)
@@ -121,18 +123,18 @@ func (b *builder) build(s []Comparable, effort int) *Node {
 	return &n
 }
 
-func (b *builder) selectVantage(s []Comparable, effort int) Comparable {
+func (b *builder) selectVantage(s []Comparable, effort int) int {
 	if effort <= 1 {
-		return s[b.intn(len(s))]
+		return b.intn(len(s))
 	}
 	if effort > len(s) {
 		effort = len(s)
 	}
-	var best Comparable
+	best := -1
 	bestVar := -1.0
 	b.work = b.work[:effort]
 	choices := b.random(effort, s)
-	for _, p := range choices {
+	for pi, p := range choices {
 		for i, q := range choices {
 			d := p.Distance(q)
 			if math.IsInf(d, 0) {
@@ -142,10 +144,10 @@ func (b *builder) selectVantage(s []Comparable, effort int) Comparable {
 		}
 		variance := stat.Variance(b.work, nil)
 		if variance > bestVar {
-			best, bestVar = p, variance
+			best, bestVar = pi, variance
 		}
 	}
-	if best == nil {
+	if best < 0 {
 		// This should never be reached.
 		panic("vptree: could not find vantage point")
 	}
@@ -169,7 +171,8 @@ func (b *builder) partition(v Comparable, s []Comparable) (radius float64, close
 		}
 		b.work[i] = d
 	}
-	sort.Sort(byDist{dists: b.work, points: s})
+	// s[0] is the vantage point itself (distance 0): keep it in place.
+	sort.Sort(byDist{dists: b.work[1:], points: s[1:]})
 
 	// Note that this does not conform exactly to the description
 	// in the paper which specifies d(p, s) < mu for L; in cases
